@@ -28,6 +28,9 @@ Sensitivity (quick tier, seed 1, scratch copies; all caught = exit 1):
   * unknown command-line option silently ignored (``continue``) ....... caught (C44.bad_input_accepted)
   * ``remaining = args[i:]`` -> ``args[i + 1:]`` ........................ caught (C44.remaining_args)
   * ``_parse_bool``: ``"f"`` dropped from the false list ............... caught (C44.value)
+  * range upper bound: ``hi = ... else None`` and ``range(lo, (hi or lo) + 1)`` (an upper bound of exactly 0 treated
+    as missing: ``-3:0`` -> ``[-3]``, ``1:0`` -> ``[1]``) ... caught (C44.value; the range generator now has bounds
+    -2..2 on both sides, ``lo:0``, ``0:hi`` and descending pairs -- added after third-round mutation testing)
   * ``_parse_timedelta``: ``_TIMEDELTA_PATTERN.match(value, start)`` -> ``.search(value, start)`` (junk before or
     between components skipped: ``x45s``, ``about 45s``, ``1h, 30m``, ``=45``) ... caught (C44.bad_input_accepted,
     negative kind ``td_junk``: junk before / between / after otherwise valid components, command line and
@@ -198,6 +201,15 @@ def realise(opt, spec, labels):
                 labels.add("int_range_negative")
             if lo == hi:
                 labels.add("int_range_single")
+            if hi == 0 and lo != 0:
+                labels.add("int_range_upper_bound_zero")
+            if lo == 0 and hi != 0:
+                labels.add("int_range_lower_bound_zero")
+            if lo > hi:
+                # EITHER: a descending range contributes nothing under both readings Tornado documents
+                # ("inclusive at both ends" / "range(x, y)"); rejecting it would also be defensible, so the
+                # parse may raise -- but it must never yield other values
+                labels.add("int_range_descending_EITHER")
         else:
             t, e = realise_scalar(tname, item, labels)
             texts.append(t)
@@ -388,7 +400,7 @@ def run_case(ctx, case):
                         labels.add("remaining_args")
                     args.extend(rem)
                 # options that may legitimately fail (non-canonical int spellings)
-                may_fail = any(_has_kind(e, "value_or_error") for _, e, _ in pending)
+                may_fail = any(_has_kind(e, "value_or_error") or "int_range_descending_EITHER" in sl for _, e, sl in pending)
                 try:
                     with contextlib.redirect_stderr(io.StringIO()):
                         got_rem = parser.parse_command_line(list(args), final=(sidx % 2 == 0))
@@ -450,7 +462,7 @@ def run_case(ctx, case):
                 path = os.path.join(tmpdir, "conf%d.py" % sidx)
                 with open(path, "w", encoding="utf-8") as f:
                     f.write("\n".join(lines) + "\n")
-                may_fail = any(_has_kind(e, "value_or_error") for _, e, _ in pending)
+                may_fail = any(_has_kind(e, "value_or_error") or "int_range_descending_EITHER" in sl for _, e, sl in pending)
                 try:
                     parser.parse_config_file(path, final=(sidx % 2 == 0))
                 except Exception as e:
@@ -685,7 +697,15 @@ td_junk_payload_s = st.tuples(
     ),
     st.sampled_from(["cmdline", "cmdline", "config"]),
 )
-range_s = st.tuples(st.just("range"), st.integers(-1000, 1000), st.integers(0, 60)).map(lambda t: (t[0], t[1], t[1] + t[2]))
+_small = st.sampled_from([-2, -1, 0, 1, 2])
+range_s = st.one_of(
+    st.tuples(st.just("range"), st.integers(-1000, 1000), st.integers(0, 60)).map(lambda t: (t[0], t[1], t[1] + t[2])),
+    st.tuples(st.just("range"), _small, _small),                                          # bounds -2..2 on both sides, incl. descending
+    st.tuples(st.just("range"), st.integers(-60, -1), st.just(0)),                       # upper bound exactly 0
+    st.tuples(st.just("range"), st.just(0), st.integers(1, 60)),                         # lower bound exactly 0
+    st.tuples(st.just("range"), st.integers(-50, 50), st.integers(1, 50)).map(lambda t: (t[0], t[1], t[1] - t[2])),  # descending
+    st.tuples(st.just("range"), st.integers(1, 60), st.just(0)),                         # descending onto 0
+)
 
 SCALAR = {"str": str_s, "int": int_spec_s, "float": float_spec_s, "bool": bool_text_s, "datetime": dt_spec_s, "timedelta": td_spec_s}
 ITEM = dict(SCALAR, str=str_item_s,
